@@ -107,7 +107,8 @@ Inductive bcase :=
 | BRule (s : rspec) (built : option str) (r : rt)
 | BWatch (path : str) (is_dir : bool) (perms : str) (keys : list str) (built : option str) (r : rt)
 | BVal (field : string) (text : str) (obs : option N)
-| BLine (toks : list str) (built : option str).          (* the tokens shellquote.Split gave for a syscall-rule line, and what Parse + Build made of them *)     (* one "-F field=text" filter: the value word Build wrote, None = rejected *)
+| BLine (toks : list str) (built : option str)           (* the tokens shellquote.Split gave for a syscall-rule line, and what Parse + Build made of them *)
+| BAlias (changed : N).                                    (* how many earlier results were found changed after a later Build *)     (* one "-F field=text" filter: the value word Build wrote, None = rejected *)
 
 Definition judge_value (f : string) (text : str) (obs : option N) : N :=
   match lookupS (s2l f) fields_table with
@@ -135,6 +136,7 @@ Definition judge_c06 (c : bcase) : N :=
       | None => if optb_eqb (build_watch path is_dir perms keys) None then 0 else 1
       end
   | BVal f text obs => judge_value f text obs
+  | BAlias changed => if changed =? 0 then 0 else 2
   | BLine toks built =>
       if optb_eqb (option_map to_wire (match flags_parse toks with Some p => build_prule (fun _ => false) p | None => None end)) built then 0 else 1
   end.
